@@ -346,7 +346,7 @@ func cmdCheck(args []string) int {
 	engines := map[string]*Engine{}
 	only := os.Getenv("VERIF_ONLY") // development aid: restrict to runs whose name contains this; no evidence is written
 	for _, run := range def.Runs(tier) {
-		if only != "" && !strings.Contains(run.Name, only) {
+		if only != "" && !(strings.HasPrefix(only, "=") && run.Name == only[1:]) && !(!strings.HasPrefix(only, "=") && strings.Contains(run.Name, only)) {
 			continue
 		}
 		if only != "" && os.Getenv("VERIF_PARAMS") != "" {
